@@ -78,7 +78,7 @@ fn certainly_ill_formed(line: &str) -> Option<&'static str> {
 
 pub fn run(tier: Tier) -> i32 {
     let rep = Report::new("C17", tier, "model_checking");
-    rep.set_rule("SCOPE: (forms) utterances (incl. labels whose first phoneme is named like a number: 2, -1, 1e3, .5, +0; one utterance of 300 lines) x {&[&str], &[String], Vec<String>, &[&str; N], Vec<Label>} x a blank line inserted at every position x time stamps present/absent with alignment off, and time-stamped lines with blank lines at every position with alignment on, waveforms compared bit-exactly; (faults) 5 base lines (plain label, label with times, label with fractional times, and two already ill-formed ones: one time stamp deleted, /K: section deleted): every single-character deletion, duplication, and substitution/insertion from a 33-symbol alphabet (incl. line breaks) at every position, every prefix truncation, every token deletion/duplication, 14 special time tokens; thorough: all pairs of substitutions on a 40-character window; oracle: never a panic, Err required for certainly ill-formed lines (two tokens, time rejected by f64::from_str, missing phoneme separator or /A:../K: marker); distinct = distinct corrupted line; non-trivial = line differs from the base");
+    rep.set_rule("SCOPE: (forms) utterances (incl. labels whose first phoneme is named like a number: 2, -1, 1e3, .5, +0; one utterance of 300 lines) x {&[&str], &[String], Vec<String>, &[&str; N], Vec<Label>} x a blank line inserted at every position x time stamps present/absent/zero-length/all zero/backwards/astronomical with alignment off (utterances incl. one with sil and pau labels), and time-stamped lines with blank lines at every position with alignment on, waveforms compared bit-exactly; (faults) 5 base lines (plain label, label with times, label with fractional times, and two already ill-formed ones: one time stamp deleted, /K: section deleted): every single-character deletion, duplication, and substitution/insertion from a 33-symbol alphabet (incl. line breaks) at every position, every prefix truncation, every token deletion/duplication, 14 special time tokens; thorough: all pairs of substitutions on a 40-character window; oracle: never a panic, Err required for certainly ill-formed lines (two tokens, time rejected by f64::from_str, missing phoneme separator or /A:../K: marker); distinct = distinct corrupted line; non-trivial = line differs from the base");
     rep.assume("single faults (pairs on one window in the thorough tier); lines that are not certainly ill-formed may be accepted or rejected");
     let corpus = labels::corpus();
     let tiny = engine_from_bytes(&GenCfg { nstate: 2, ..GenCfg::default() }.bytes()).expect("generated voice");
@@ -92,7 +92,14 @@ pub fn run(tier: Tier) -> i32 {
             utts.insert(2, u);
         }
     }
-    let numberlike = utts.len() - 5;
+    // silence and pause labels inside the utterance (the labels aligners treat specially)
+    {
+        let pick = |c: &str| corpus.iter().find(|l| labels::centre(l) == c).cloned();
+        if let (Some(sil), Some(pau)) = (pick("sil"), pick("pau")) {
+            utts.insert(2, vec![sil.clone(), corpus[41].clone(), pau, corpus[42].clone(), sil]);
+        }
+    }
+    let numberlike = utts.len() - 6;
     // beyond the small scope: one utterance of 300 lines (only on the tiny voice; it is the last entry)
     utts.push(corpus[0..300].to_vec());
     rep.guard(numberlike >= 2, "no number-like label accepted by the label parser");
@@ -121,6 +128,15 @@ pub fn run(tier: Tier) -> i32 {
                 variants.push(("time stamps + blank line".into(), tb));
                 let mixed: Vec<String> = u.iter().enumerate().map(|(i, l)| if i % 2 == 0 { format!("0 5000000 {}", l) } else { l.clone() }).collect();
                 variants.push(("time stamps on every other line".into(), mixed));
+                // odd but parsable time stamps: with alignment off they must not matter at all
+                let zero_len: Vec<String> = u.iter().enumerate().map(|(i, l)| format!("{} {} {}", i * 1_000_000, i * 1_000_000, l)).collect();
+                variants.push(("zero-length segments (start = end)".into(), zero_len));
+                let all_zero: Vec<String> = u.iter().map(|l| format!("0 0 {}", l)).collect();
+                variants.push(("all time stamps 0 0".into(), all_zero));
+                let backwards: Vec<String> = u.iter().enumerate().map(|(i, l)| format!("{} {} {}", (u.len() - i) * 1_000_000, (u.len() - i - 1) * 1_000_000, l)).collect();
+                variants.push(("time stamps running backwards".into(), backwards));
+                let far: Vec<String> = u.iter().enumerate().map(|(i, l)| format!("{} {} {}", 1_000_000_000_000_000u64 + i as u64, 2_000_000_000_000_000u64, l)).collect();
+                variants.push(("astronomical time stamps".into(), far));
             }
             for (vname, lines) in &variants {
                 for (fname, r) in forms(e, lines) {
